@@ -30,7 +30,10 @@ BOUNDS = {"quick": dict(n=28, sets_per_file=10, canon=16, single_points_files=0)
           "thorough": dict(n=112, sets_per_file=300, canon=600, single_points_files=20)}
 MINIMUM = {"quick": {"monitor.relation_checked": 1200, "cases.insertion_inside_function": 600, "monitor.removal_relation_checked": 100},
            "thorough": {"monitor.relation_checked": 40000, "cases.insertion_inside_function": 20000, "monitor.removal_relation_checked": 500}}
-WORDS = ["note", "todo: later", "x = 1; {", "if (a) { b(); }", "def f(): pass", "function g() {", "}", "see nocl", "((", "\"", "'"]
+WORDS = ["note", "todo: later", "x = 1; {", "if (a) { b(); }", "def f(): pass", "function g() {", "}", "see nocl", "((", "\"", "'",
+         # the marker word later in the comment, also right after something that looks like another comment opener
+         "noqa: C901  # nocl was dropped", "TODO split; nocl is no option", "tracked in #nocl-42", "see // nocl", "was /* nocl", "x ;nocl",
+         "NOT NOCL", "no-nocl", "a nocl b"]
 
 
 def shards(tier, seed):
